@@ -900,6 +900,7 @@ func (self *Fork) disabled() (bool, error) {
 }
 
 func (self *Fork) writeDisable() {
+	util.VerifPoint("fork:writeDisable", self.fqname)
 	if err := util.MkdirAll(self.path); err != nil {
 		util.LogError(err, "runtime",
 			"Could not create directories for %s", self.fqname)
@@ -1006,6 +1007,7 @@ func (self *Fork) printState(state MetadataState) {
 }
 
 func (self *Fork) doSplit(getBindings func() MarshalerMap) MetadataState {
+	util.VerifPoint("fork:doSplit", self.fqname)
 	if disabled, err := self.disabled(); disabled {
 		self.writeDisable()
 		return DisabledState
@@ -1038,6 +1040,7 @@ func (self *Fork) doSplit(getBindings func() MarshalerMap) MetadataState {
 }
 
 func (self *Fork) doChunks(state MetadataState, getBindings func() MarshalerMap) MetadataState {
+	util.VerifPoint("fork:doChunks", self.fqname)
 	self.node.top.rt.JobManager.endJob(self.split_metadata)
 	if self.isVolatile() {
 		lockAquired := make(chan struct{}, 1)
@@ -1114,6 +1117,7 @@ Chunk count: %d`,
 }
 
 func (self *Fork) doJoin(state MetadataState, getBindings func() MarshalerMap) MetadataState {
+	util.VerifPoint("fork:doJoin", self.fqname)
 	go self.partialVdrKill()
 	if self.stageDefs.JoinDef == nil {
 		self.stageDefs.JoinDef = &JobResources{}
@@ -1214,6 +1218,7 @@ func (self *Fork) doJoin(state MetadataState, getBindings func() MarshalerMap) M
 }
 
 func (self *Fork) doComplete() {
+	util.VerifPoint("fork:doComplete", self.fqname)
 	self.node.top.rt.JobManager.endJob(self.join_metadata)
 	var joinOut LazyArgumentMap
 	if len(self.OutParams().List) > 0 {
@@ -1264,6 +1269,7 @@ func (self *Fork) doComplete() {
 	} else {
 		self.metadata.WriteErrorString(msg)
 	}
+	util.VerifPoint("fork:doComplete:marked", self.fqname)
 	self.removeEmptyFileArgs(joinOut)
 	if self.node.top.rt.Config.VdrMode != VdrPost {
 		go func() {
@@ -1278,6 +1284,7 @@ func (self *Fork) doComplete() {
 }
 
 func (self *Fork) stepPipeline() {
+	util.VerifPoint("fork:stepPipeline", self.fqname)
 	if disabled, err := self.disabled(); disabled {
 		self.writeDisable()
 		return
